@@ -392,9 +392,26 @@ class Gen:
         return s
 
 
+def needed_model(q: T.Term, backend: str) -> List[Dict[str, Any]]:
+    """The part of the data model the query mentions (its collections, the methods it calls on either element
+    class, the plug-in functions): what a user would attach."""
+    used = set()
+    for s in T.subterms(q):
+        if s[0] == "n" and s[1].startswith("attr:"):
+            used.add(s[1][5:])
+        if s[0] == "v":
+            used.add(s[1])
+    out = []
+    for m in data_model(backend):
+        name = m.get("method_name") or m.get("name")
+        if name in used:
+            out.append(m)
+    return out
+
+
 def make_query(rng, backend: str, depth: int = 2) -> Tuple[T.Term, List[Dict[str, Any]], Dict[str, int]]:
     """(metadata-free query, metadata items, feature counts)"""
     g = Gen(rng, backend)
     q = g.query(depth)
-    mds = data_model(backend) + extra_md(rng, backend)
+    mds = needed_model(q, backend) + extra_md(rng, backend)
     return q, mds, g.features
